@@ -317,14 +317,17 @@ def unflShape : Nat → Nat → List Sx → Option (List Sx)
       unflShape l (k + 1) (s.take k ++ [a, .cons b (.cons c r)] ++ s.drop (k + 1))
     | _ => none
 
-/-- `rep` is what `self.getShape()` reports (authoritative *or estimated*): the code passes it on
-    as the declared shape of the result.  Since /repo e4536c9 the leaf default is passed to
-    `Tensor.fromFiber`. -/
-def mUnflatten (k levels : Nat) (rep : List Sx) (m : Meta) : Option Meta :=
-  match unflIds levels k m.ids, unflShape levels k rep with
-  | some ids', some s' =>
-    some { ids := ids', shape := some s', dflt := m.dflt, fmts := ids'.map m.fmtOrC, mutable := m.mutable }
-  | _, _ => none
+/-- since /repo COMMIT:C14-01 only the authoritative shape is re-arranged and passed on (before, the
+    possibly estimated `self.getShape()` was); the leaf default is passed to `Tensor.fromFiber`
+    (e4536c9); formats are looked up by id -/
+def mUnflatten (k levels : Nat) (m : Meta) : Option Meta :=
+  match unflIds levels k m.ids with
+  | none => none
+  | some ids' =>
+    match m.shape with
+    | none => some { ids := ids', shape := none, dflt := m.dflt, fmts := ids'.map m.fmtOrC, mutable := m.mutable }
+    | some s => (unflShape levels k s).map (fun s' =>
+        { ids := ids', shape := some s', dflt := m.dflt, fmts := ids'.map m.fmtOrC, mutable := m.mutable })
 
 /-- documented: the inverse re-arrangement of ids and (authoritative) shape; default, mutability
     kept; surviving ranks keep their format, the `levels + 1` new ranks are compressed -/
